@@ -739,3 +739,7 @@ impl Iterator for Drain<'_> {
         (len, Some(len))
     }
 }
+
+#[cfg(all(aws_s2n_quic_verif, test))]
+#[path = "/verif/harness/core/reassembler_cursors.rs"]
+mod verif;
